@@ -311,10 +311,25 @@ def floats_chars(ctx, rng):
                 ctx.evaluation(None)
                 if bytes(t(bytes([b]) + b"z"[:0])) != bytes([b]) or t.dumps(bytes([b])) != bytes([b]):
                     ctx.violation("char", "char-not-raw-byte", {"type": spelled, "byte": b})
+                # the other accepted spellings of one char (int, one-character str) are that same byte
+                try:
+                    alt = (t.dumps(b), t.dumps(chr(b)))
+                except Exception as ex:  # noqa: BLE001
+                    alt = repr(ex)
+                if alt != (bytes([b]), bytes([b])):
+                    ctx.violation("char", "char-given-as-int-or-str-not-that-byte", {"type": spelled, "byte": b, "got": repr(alt)})
             raw = bytes(rng.randrange(256) for _ in range(9))
             ctx.evaluation(("chararr", spelled, e, raw.hex()))
             if bytes(t[9](raw)) != raw or t[9].dumps(raw) != raw:
                 ctx.violation("char", "char-array-not-raw-bytes", {"type": spelled, "raw": raw.hex()})
+            raw = bytes(rng.randrange(128, 256) for _ in range(9))
+            try:
+                alt = t[9].dumps(raw.decode("latin-1"))
+            except Exception as ex:  # noqa: BLE001
+                alt = repr(ex)
+            if alt != raw:
+                ctx.violation("char", "char-array-given-as-str-not-one-byte-per-character",
+                              {"type": spelled, "raw": raw.hex(), "got": repr(alt)})
             ctx.cell(f"char:{e}")
         # wchar: UTF-16 in the current byte order
         codec = "utf-16-be" if e in (">", "!") else "utf-16-le"
